@@ -309,11 +309,17 @@ impl Ref {
             // nothing is typed for an edit that changes nothing
             return;
         }
+        let before: Vec<V> = self.data.iter().map(|(_, v)| v.clone()).collect();
         self.set_program(prog);
         self.stack.clear();
         // as on a fresh interpreter fed the listing: functions exist again once their DEF executes
         self.fns.clear();
-        self.data_unknown = true;
+        // an edit that leaves the sequence of DATA constants as it was leaves the position alone;
+        // otherwise the position is unknown until RUN / CLEAR / RESTORE
+        let after: Vec<V> = self.data.iter().map(|(_, v)| v.clone()).collect();
+        if before != after {
+            self.data_unknown = true;
+        }
     }
 
     fn collect_data(&mut self, line: usize, stmts: &[Stmt]) {
